@@ -151,13 +151,19 @@ func (h *Hook) matchesCurrent() (bool, bool, error) {
 		return false, false, err
 	}
 
-	by, err := io.ReadAll(io.LimitReader(file, 1024))
+	// Read one byte more than any hook we have ever written could occupy, so
+	// that a longer file (for example one of our hooks followed by padding and
+	// the user's own commands) is never mistaken for one of ours.
+	by, err := io.ReadAll(io.LimitReader(file, 1025))
 	file.Close()
 	if err != nil {
 		return false, false, err
 	}
 
 	contents := strings.TrimSpace(tools.Undent(string(by)))
+	if len(by) > 1024 {
+		return false, false, errors.New(fmt.Sprintf("%s\n\n%s\n", tr.Tr.Get("Hook already exists: %s", string(h.Type)), tools.Indent(contents)))
+	}
 	if contents == h.Contents {
 		return true, true, nil
 	} else if len(contents) == 0 {
